@@ -31,3 +31,31 @@ package cl
 //@   ensures [step-temp] re.Expr3 != nil && !simpleOperand(re.Expr3) ==> isIdentNamed(result.Post.(*ast.AssignStmt).Rhs[0], "_gop_step") &&
 //@             result.Init.(*ast.AssignStmt).Rhs[len(result.Init.(*ast.AssignStmt).Rhs)-1] == re.Expr3 &&
 //@             result.Init.(*ast.AssignStmt).Lhs[len(result.Init.(*ast.AssignStmt).Lhs)-1] == result.Post.(*ast.AssignStmt).Rhs[0]
+//@
+//@ # The other contexts (for-range, comprehensions): compileRangeExpr emits newRange(first|0, last, step|1) through the
+//@ # code builder. scratchRng counts the operands pushed so far: the function reference, then start, end and step in
+//@ # this order, then Call(3). The builder (gogen) and compileExpr are outside the proof (ASSUMED to push one value).
+//@ ghost scratchRng int
+//@ # compileExpr's effects are on the code builder's state, which is not modelled: ASSUMED not to touch the syntax
+//@ # tree being compiled nor ctx.cb / ctx.pkg
+//@ trusted compileExpr
+//@   requires ctx != nil && expr != nil
+//@   assigns nothing
+//@ func compileRangeExpr
+//@   requires ctx != nil && v != nil && v.Last != nil && ctx.cb != nil && ctx.pkg != nil
+//@   assigns scratchRng
+//@   at entry set scratchRng = 0
+//@   at call Val#1 assert [pushes-the-function-first] scratchRng == 0
+//@   at call Val#1 set scratchRng = 1
+//@   at call Val#2 assert [default-start-is-zero] scratchRng == 1 && v.First == nil && arg1 == any(int(0))
+//@   at call Val#2 set scratchRng = 2
+//@   # (call ordinals follow the block order of the compiled function: the else-branch call for v.First is #2)
+//@   at call compileExpr#2 assert [start] scratchRng == 1 && v.First != nil && arg1 == v.First
+//@   at call compileExpr#2 set scratchRng = 2
+//@   at call compileExpr#1 assert [end] scratchRng == 2 && arg1 == v.Last
+//@   at call compileExpr#1 set scratchRng = 3
+//@   at call Val#3 assert [default-step-is-one] scratchRng == 3 && v.Expr3 == nil && arg1 == any(int(1))
+//@   at call Val#3 set scratchRng = 4
+//@   at call compileExpr#3 assert [step] scratchRng == 3 && v.Expr3 != nil && arg1 == v.Expr3
+//@   at call compileExpr#3 set scratchRng = 4
+//@   at call Call#1 assert [calls-with-three-operands] scratchRng == 4 && arg1 == 3
